@@ -367,8 +367,15 @@ func RunHistory(rng *common.Rng, cfg Config) (*Run, error) {
 						fail("C01", c01Canon(m, data), fmt.Sprintf("session %d seq %d: learnt UID %d, server now reports UID %d", o.S, r.N, c.UID, r.UID))
 						break
 					}
-					if c.HasF && !silentDeferred[o.S] && !eqInts(c.Flags, setOf(r.Flags)) {
-						fail("C01", "learnt flags differ from reported flags", fmt.Sprintf("session %d seq %d (uid %d): learnt %v, reported %v", o.S, r.N, r.UID, c.Flags, r.Flags))
+					if c.HasF && !eqInts(c.Flags, setOf(r.Flags)) {
+						canon := "learnt flags differ from reported flags"
+						if silentDeferred[o.S] {
+							// known finding: the session's own .SILENT store of a message it had put back itself (EXISTS still
+							// held) is held too and applied WITHOUT a response to the new instance by the next permitting
+							// command - after the FETCH responses of earlier changes told the client that instance's flags
+							canon = "silent-store-applied-to-readded-instance: " + canon
+						}
+						fail("C01", canon, fmt.Sprintf("session %d seq %d (uid %d): learnt %v, reported %v", o.S, r.N, r.UID, c.Flags, r.Flags))
 						break
 					}
 				}
